@@ -95,7 +95,7 @@ def parse_fail(l):
 
 
 def check(ctx, pid, targets, mon_codes, known_codes=None, allow_axioms=(), extra_trusted=(), quick_cases=6400,
-          thorough_cases=160000, rule_extra=""):
+          thorough_cases=160000, rule_extra="", extra_run=None):
     """mon_codes: monitor failure codes that are violations of this property, e.g. {"C01"}.
     known_codes: {code: key-dict} failure codes that are known-finding classes."""
     known_codes = known_codes or {}
@@ -170,6 +170,8 @@ def check(ctx, pid, targets, mon_codes, known_codes=None, allow_axioms=(), extra
                        "every 10th history walks >100 further blocks. One observation per step: reply, RPC multiset, tables users/appointments/"
                        "trackers, gatekeeper memory. distinct = distinct operation sequences; non-trivial = contains a breach of a stored "
                        "appointment or a disconnection. " + rule_extra)
+    if extra_run is not None:
+        extra_run(ctx)
     return ctx.finish("proof")
 
 
